@@ -69,6 +69,11 @@ class World:
             raise PyRaise('SystemExit', tuple(a), 'sys.exit')
         sp.models['sys.exit'] = Func(m_exit)
         sp.globals['sys.stderr'] = Untracked()
+        # pure reporting helpers of the commands: they print, write nothing and decide nothing (their calls are inside the write-site clauses of C20)
+        sp.models['_report_unloadable_rules'] = Func(lambda I, a, k, n: I.ctx.fresh('rules_file_unloadable', BoolS))
+        # which supplemental sources were loaded is unknown to the command harnesses
+        for cls_ in ('supp', 'load_supplemental_sources'):
+            sp.field_sorts.setdefault(('contains', cls_), lambda I, c, item, node: I.ctx.fresh('supplemental_source_loaded', BoolS))
         sp.globals['sys.stdout'] = Untracked()
         sp.models['find_config_dir'] = Func(lambda I, a, k, n: self.config_dir)
         # configuration record
